@@ -10,16 +10,20 @@ MANIFEST = {
                  "computation), examples/resegmenter Resegment, MediaSegment.Fragmentify and combine-segs' multiplexing; "
                  "differential correspondence (extracted OCaml vs the Go functions through a tagged test driver and vs the "
                  "built tools); failing-input search running the built tools on synthesized files",
-    "level_text": "Theorems (coq/c11/C11Theorems.v), for all inputs: the segmenter's per-track sample intervals tile 1..N for "
-                  "every track of every file and every target duration whenever the tool gets to writing (full statement, "
-                  "proved for the text after the fix commit; the pinned text is refuted by a witness); fetching the planned "
-                  "intervals returns every sample once, in order; the reference track's segments start at the chosen sync "
-                  "samples (guard: chosen sync samples have non-zero duration); Resegment's and Fragmentify's output "
-                  "sample lists concatenate to the input for every duration; every Resegment output segment after the "
-                  "first starts with a sync sample with pts >= d*seq; multiplexing single-track fragments and reading each "
-                  "track back returns each input list for inputs whose sample fields do not rely on trex defaults. "
-                  "Only explored (search on the real tools, not proved): writing samples into fragments, encoding, decoding "
-                  "and reading them back is the identity on (bytes, dur, flags, cto, decode time).",
+    "level_text": "Theorems (coq/c11/C11Theorems.v), for all inputs: (segmenter, text after fix 34ef7ec) for every file, every "
+                  "track and every target duration, whenever the tool gets to writing, the per-track sample intervals tile "
+                  "1..N and fetching them returns every sample once, in order (the pinned text is refuted by a witness); the "
+                  "reference track's segments start at the chosen sync samples (guard: chosen sync samples have non-zero "
+                  "duration; unguarded statement refuted); Resegment: output segments concatenate to the input for every "
+                  "duration, every segment after the first is non-empty and starts with a sync sample with pts >= d*seq; "
+                  "Fragmentify: never fails, conserves, no empty fragment; both read back with the input's decode times when "
+                  "the input's decode times are contiguous (refuted for inputs with a decode-time gap); combine-segs: for "
+                  "distinct track ids reading each track back from the multi-track fragment returns its input list, and "
+                  "reading an input with trex = nil equals reading it with its trex exactly when no field relies on trex "
+                  "defaults (refuted otherwise). Only explored by the search on the real tools, not proved: writing samples "
+                  "into fragments, encoding, decoding and GetFullSamples is the identity on (bytes, dur, flags, cto) and on "
+                  "decode times up to the retiming above; sample data fetch from stsc/stco/stsz; flag translation from "
+                  "stss/sdtp.",
     "level_note": "Trusted: Coq kernel, extraction (ExtrOcamlBasic), the OCaml/Go glue, the file synthesizer and reader in the "
                   "harness (they use mp4ff's own box encoders/decoders and GetFullSamples). The models are hand transcriptions "
                   "tied to the code by differential runs on generated inputs only. uint64 time accumulators are not wrapped "
